@@ -6,6 +6,7 @@ CONSTANTS URLS = {"A","B","C","D"}
  MaxThr = 9
  Prog <- cProg
  CacheInit <- cCache
+ FlatIncludes <- cFlat
  defaultInitValue = "dflt"
 CONSTRAINT Reached
 POSTCONDITION Accepted
